@@ -32,7 +32,7 @@ Qed.
 Theorem C05_other_replicas_untouched ops o r' l' :
   nth_error (s_logs (run ops)) r' = Some l' ->
   (match o with
-   | OAppend r _ _ _ | OJoin r _ _ | OSetIdentity r _ => r <> r'
+   | OAppend r _ _ _ | OAppendFail r _ _ _ | OJoin r _ _ | OSetIdentity r _ => r <> r'
    | _ => True end) ->
   nth_error (s_logs (run (ops ++ [o]))) r' = Some l'.
 Proof.
